@@ -97,6 +97,8 @@ class Attr:
         if k == "type":
             if g.o.decide(g.T[n] == MISSING):
                 raise KeyError(k)
+            if g.pin_types:
+                return SymType(g.o, g.T[n]).pin()  # fall-back mode: a plain str (the type is decided as soon as it is read)
             return SymType(g.o, g.T[n])
         if k == "output":
             return g.o.decide(g.O[n])
@@ -168,6 +170,7 @@ class SymDiGraph:
         self.wedge = {}  # (u, v) -> True/False
         self.created = []  # names outside U that were added, in order
         self.graph = {}
+        self.pin_types = False
 
     # ---------------------------------------------------------------- symbolic state accessors (z3 terms)
     def names(self):
@@ -335,6 +338,7 @@ class SymDiGraph:
         g = SymDiGraph(self.o, self.U, (self.P, self.T, self.O, self.E))
         g.wnode, g.fresh, g.wattr, g.wedge = dict(self.wnode), set(self.fresh), dict(self.wattr), dict(self.wedge)
         g.created = list(self.created)
+        g.pin_types = self.pin_types
         return g
 
 
